@@ -2565,6 +2565,29 @@ def rule_reuse(prog):
                                             pass
                             if inc_i is not None and cmp_i is not None and limit_ is not None and cmp_i != inc_i:
                                 counted_tokens = limit_ if cmp_i < inc_i else limit_ - 1
+                        # `leading_comments + K`: only the run of comments directly behind the node is skipped, the K tokens behind it
+                        # are counted comments included - the first of them is no comment (the run ended there), every further one may be
+                        if counted_tokens is None and window is None:
+                            runs_ = []
+                            for tw in hir.nodes_deep(prog, hb["body"], 1, crate=c, values=True):
+                                if tw.get("k") != "MethodCall" or tw["m"] not in ("take_while", "skip_while") or not tw["args"]:
+                                    continue
+                                cl_ = hir.strip(tw["args"][0])
+                                bd_ = hir.strip(cl_.get("body") or {}) if cl_.get("k") == "Closure" else {}
+                                if bd_.get("k") == "Match" and "matches!" in (bd_.get("mx") or []) and any(
+                                        "spl_frontend::tokens::TokenType::Comment" in hir.pat_variants_all(a_["pat"]) and
+                                        hir.lit_value(a_["body"]) is True for a_ in bd_["arms"]):
+                                    runs_.append(tw)
+                            adds_ = [x for x in hir.nodes(hb["body"], "Binary") if x["op"] == "+" and
+                                     (hir.lit_value(hir.strip(x["r"])) is not None or hir.lit_value(hir.strip(x["l"])) is not None)]
+                            if len(runs_) == 1 and len(adds_) == 1 and not any(x.get("k") in ("Loop", "While", "ForLoop") for x in hir.nodes(hb["body"])):
+                                try:
+                                    k_ = hir.lit_value(hir.strip(adds_[0]["r"]))
+                                    k_ = int(k_ if k_ is not None else hir.lit_value(hir.strip(adds_[0]["l"])))
+                                    window = k_
+                                    counted_tokens = min(k_, 1)
+                                except (TypeError, ValueError):
+                                    pass
     if max_depth and window is not None:
         out.add("parser::utility::affected", "the affected range reaches as far behind a node as the parsers' look-ahead", window >= max_depth,
                 c.loc(aff["sp"]), "the synchronisation sets inspect up to %d tokens behind a node (`ident :=`), a node counts as affected only "
